@@ -39,7 +39,7 @@ static int _mpt_metatype_wrap(const void *from, MPT_TYPE(type) type, void *dest)
 				return MPT_ERROR(BadOperation);
 			}
 			if ((old = *ptr)) {
-				old->_vptr->addref(old);
+				old->_vptr->unref(old);
 			}
 			*ptr = mt;
 		}
